@@ -176,9 +176,10 @@ func (g *Gen) runAll(fnFilter, prop, dump string) *Report {
 		if fnFilter != "" && !strings.Contains(name, fnFilter) {
 			continue
 		}
-		if prop != "" && !inh[name][prop] {
-			continue
-		}
+		// every function under contract is translated for every property: an obligation belongs to a property through
+		// its clause's tags, and a call-site precondition carries the tags of the callee's clause, so a caller that is
+		// itself tagged otherwise must still be checked against it (modularity: callers against callee contracts)
+		_ = inh
 		if sp.Trusted {
 			rep.Trusted = append(rep.Trusted, name)
 			continue
